@@ -13,9 +13,13 @@
       arithmetic (process_state.rs:796-823, 1050-1110; unwind/lib.rs:469-482; processor.rs:1180)
     * `argRecovery` read head — arg_recovery.rs:100-120
     * `contextOffset`, `nearbyIndex` — op_analysis.rs:213, process_state.rs:330
+  The numeric constants (3 fields, 2 << 14, the 8 of push/call and of the ebp slot, the 4-byte
+  words) come from `MdModel.Gen.ProcessConsts`, regenerated from the Rust sources by
+  translators/consts_process.py on every run, which also pins the shape of every guard.
   Core-only imports (linked into the `mdmodel` driver).
 -/
 import MdModel.Prelude
+import MdModel.Gen.ProcessConsts
 namespace MdModel.Process
 open MdModel
 
@@ -146,7 +150,7 @@ def fieldsOf (line : List Char) : List (List Char) :=
   (splitDouble line []).filter (fun x => !x.isEmpty)
 
 /-- the minimum number of fields of a limit line (`.filter(|m| m.len() >= 3)`) -/
-def LIMIT_MIN_FIELDS : Nat := 3
+def LIMIT_MIN_FIELDS : Nat := Consts.limit_min_fields
 
 /-- `LinuxProcLimits::from`, up to the `HashMap` (entries in line order) -/
 def parseLimits (text : List Char) : Outcome (List LimEntry) :=
@@ -212,7 +216,7 @@ def adjacentLoop (k : InfoKind) (range : Nat × Nat) : List RawRegion → Outcom
       else adjacentLoop k range rest
 
 /-- `GUARD_MEMORY_MAX_SIZE = 2 << 14` -/
-def GUARD_MAX : Nat := 32768
+def GUARD_MAX : Nat := Consts.guard_max
 
 /-- one access of `check_for_guard_pages`: `info` is the region found at the accessed address -/
 def guardFlag (k : InfoKind) (byAddr : List RawRegion) (info : RawRegion) : Outcome Bool :=
@@ -234,7 +238,7 @@ inductive StackOp where
 /-- address of the implicit access: `rsp.wrapping_sub(8)` for push/call, `rsp` for pop/ret -/
 def implicitAccess (op : StackOp) (rsp : Nat) : Nat :=
   match op with
-  | .push | .call => wrappingSub64 rsp 8
+  | .push | .call => wrappingSub64 rsp Consts.push_adjust
   | .pop | .ret => rsp
 
 /-! ## K4 — STACK WIN sizes and the FPO walk (walker.rs:937-1046) -/
@@ -252,7 +256,7 @@ def winFrameSize (i : WinInfo) (gcps : Nat) : Option Nat :=
 
 /-- `.raSearchStart` of `eval_win_expr` (all checked: a sum that does not fit makes the rule fail) -/
 def searchStart (i : WinInfo) (gcps esp ebp : Nat) (aligned : Bool) : Option Nat :=
-  if aligned then checkedAdd32 ebp 4
+  if aligned then checkedAdd32 ebp Consts.win_ebp_ra
   else (winFrameSize i gcps).bind fun fs => checkedAdd32 esp fs
 
 structure FpoIn where
@@ -290,7 +294,7 @@ def fpoEip (x : FpoIn) (esp frameSize : Nat) : Outcome (Option (Nat × Nat)) :=
       | none => .ok none   -- `walker.get_callee_register("eip")?`
       | some ceip =>
         if eip0 = ceip then
-          match cadd64 "fpo: eip_address += 4" eipAddr0 4 with
+          match cadd64 "fpo: eip_address += 4" eipAddr0 Consts.fpo_word with
           | .panic s => .panic s
           | .ok a =>
             match x.mem a with
@@ -308,8 +312,8 @@ def fpoEbp (i : WinInfo) (x : FpoIn) (esp : Nat) : Outcome (Option (Nat × Optio
       | .panic s => .panic s
       | .ok s2 =>
         -- `.checked_sub(8)?`
-        if s2 < 8 then .ok none else
-        match x.mem (s2 - 8) with
+        if s2 < Consts.fpo_ebp_back then .ok none else
+        match x.mem (s2 - Consts.fpo_ebp_back) with
         | none => .ok none
         | some v => .ok (some (v, none))
   else
@@ -329,7 +333,7 @@ def fpo (i : WinInfo) (x : FpoIn) : Outcome (Option FpoOut) :=
     | .panic s => .panic s
     | .ok none => .ok none
     | .ok (some (eipAddr, callerEip)) =>
-      match cadd64 "fpo: eip_address + 4" eipAddr 4 with
+      match cadd64 "fpo: eip_address + 4" eipAddr Consts.fpo_word with
       | .panic s => .panic s
       | .ok callerEsp =>
         match fpoEbp i x esp with
@@ -436,7 +440,7 @@ def argReadHead (start limit : Nat) : Nat → Outcome Nat
   | n + 1 =>
     match argReadHead start limit n with
     | .panic s => .panic s
-    | .ok h => if h < limit then cadd64 "arg_recovery: read_head += 4" h 4 else .ok h
+    | .ok h => if h < limit then cadd64 "arg_recovery: read_head += 4" h Consts.arg_pointer_width else .ok h
 
 /-- the frame bound the walk obeys (C05 `walk_bound`), evaluated on counts -/
 def boundOk (frames bytes : Nat) : Bool := decide (frames ≤ bytes + 2)
